@@ -234,6 +234,19 @@ def lck5_compact_swap(ctx):
                                              'std::collections::HashMap::remove',
                                              'std::collections::HashMap::retain',
                                              'std::collections::HashMap::clear'))
+    # mutations inside closures that F runs synchronously (`iter().for_each(|id| map.remove(id))`)
+    # happen at the call that receives the closure
+    MUT = ('std::collections::HashMap::insert', 'std::collections::HashMap::remove',
+           'std::collections::HashMap::retain', 'std::collections::HashMap::clear')
+    for blk, t in F.calls():
+        if blk.cleanup or not t.func:
+            continue
+        is_async = strip_generic_args(t.func).startswith(P.ASYNC_SPAWNERS) if not t.func.startswith('<') else False
+        if is_async:
+            continue
+        for cb in P.closures_in_text(t.func):
+            for (cb_blk, ct) in calls_matching(cb, lambda n: n in MUT):
+                muts.append((blk, ct))
     ctx.require(len(muts) >= 2, 'LCK-5: Table::compact does not remove+insert')
     acqs = set()
     for (b, t) in muts:
